@@ -2990,3 +2990,28 @@ mod tests {
         assert_eq!(im[40], avg_4);
     }
 }
+
+#[cfg(image_webp_verif)]
+pub(crate) fn verif_read_tree(
+    d: &mut ArithmeticDecoder,
+    which: u8,
+) -> super::vp8_arithmetic_decoder::BitResult<i8> {
+    match which {
+        0 => d.read_with_tree(&KEYFRAME_YMODE_NODES),
+        1 => d.read_with_tree(&KEYFRAME_UV_MODE_NODES),
+        2 => d.read_with_tree(&SEGMENT_TREE_NODE_DEFAULTS),
+        _ => d.read_with_tree(&KEYFRAME_BPRED_MODE_NODES[0][0]),
+    }
+}
+
+#[cfg(image_webp_verif)]
+pub(crate) fn verif_frame(width: u16, height: u16, ybuf: Vec<u8>, ubuf: Vec<u8>, vbuf: Vec<u8>) -> Frame {
+    Frame {
+        width,
+        height,
+        ybuf,
+        ubuf,
+        vbuf,
+        ..Default::default()
+    }
+}
